@@ -77,6 +77,21 @@ CHECKS = {
                 "(exhaustive:false) - the KDF code has no data-dependent control flow",
         "technique": "exhaustive enumeration of the structural space (suite x version x lengths x generations) against an independent KDF",
     },
+    "C05": {
+        "category": "model_checking",
+        "text": "Explicit-state search of the arrival-event graph of the real Session reassembler (a recording stub replaces the "
+                "record handler): every cut set of short record streams in order; for every segmentation with few segments a BFS "
+                "over 'deliver any undelivered segment' / 'deliver an exact duplicate' / 'next packet of the other direction' "
+                "with canonical state hashing, asserting in every terminal state that exactly the true records were released once "
+                "and in order, and in every other state that the released records are a prefix; initial sequence numbers that "
+                "put the 2^32 wrap on every byte; plus an end-to-end layer with real decryption per version class "
+                "(segmentations, duplicates, transpositions, displacements, wrapping ISNs).",
+        "design_ref": "DESIGN.md section 5, C05",
+        "note": "trusted: the state canonicalisation argument (the reassembler is a fold over accepted packets; validated by an "
+                "unmerged re-run in the thorough tier); retransmissions are exact duplicates; one open known finding "
+                "(first data segment of a direction displaced)",
+        "technique": "explicit-state BFS over arrival schedules on the real object with state hashing; exhaustive cut sets",
+    },
 }
 
 NOT_YET = "check not built yet in this round (planned: bounded exhaustive exploration, see DESIGN.md section 5)"
